@@ -34,7 +34,8 @@ def main(chk: core.Check) -> int:
     chk.assumptions += ["real thread interleavings are only sampled (seeded sleeps make later batches finish first); absence of data races in the C++ object rests on each call owning its parser",
                         "decoding runs through the native build of the working-tree C++ (ctypes releases the GIL, as the extension does)"]
     rc.regen(chk)
-    chk.prove(modules=["C04", "C03b", "C03File", "RawPyTie"])
+    _entry = ["EntryTie"] if core.regen_entry(chk) else []
+    chk.prove(modules=["C04", "C03b", "C03File", "RawPyTie"] + _entry)
     native.build("libraw_native")
     tmpd = tempfile.mkdtemp(prefix="c04-")
     try:
